@@ -14,7 +14,7 @@
    Which signals reach a monitor is decided by the rule it subscribed with and MatchRule::matches — the model of
    C21 (C21/Model.v [matches_b], tied to the code there) applied to the rule built by `fdo_signal_builder(member)
    .arg(0, name)` (match_rule/mod.rs:326-339).  Note BusName::try_from tries the unique-name grammar first and that
-   grammar admits the literal "org.freedesktop.DBus" (C10/Model.v [validate_unique]), so the rule's sender IS compared.
+   grammar accepts the literal "org.freedesktop.DBus" (C10/Model.v [validate_unique]), so the rule's sender IS compared.
 
    Assumed (docs/C36.md): one step at a time, the executor runs until idle between steps (monitors have consumed what
    was delivered); fewer than 64 NameLost signals are buffered for one queued name (capacity of the broadcast channel);
